@@ -61,6 +61,13 @@ class Ble:
                     show_pa=bool(ble.show_pa_level), pa=ble.pa_level if not exc == "Hang" else 0, chunks=want, len_avail=la)
 
 
+def quiet_details(ble):
+    import contextlib
+    import io
+    with contextlib.redirect_stdout(io.StringIO()):
+        ble.print_details(True)
+
+
 def input_vectors(args):
     seed, specs = args
     rng = random.Random(seed)
@@ -82,9 +89,12 @@ def input_vectors(args):
             except ValueError:
                 pass
             try:
-                ble.show_pa_level = show
+                # "truthy" forms an application computes (`options & 4`) must mean the same as True
+                ble.show_pa_level = show and rng.choice([True, True, 1, 2, 4, 0x80])
             except ValueError:
                 pass
+            if rng.random() < 0.25:
+                quiet_details(ble)      # the debugging aid reads everything back; it must change nothing
             if form == "single":
                 n = sizes[0] if sizes else 0
                 ev = b.advertise(single=(bytes(rng.randrange(256) for _ in range(n)), rng.choice([0xFF, 0x16, 0x09])))
@@ -163,6 +173,8 @@ def replay_paths(args):
             elif name == "SetName":
                 ble.name = b"nRF24L01" if a[0] else None
             elif name == "Advertise":
+                if cur is ble and len(evs) % 2:
+                    quiet_details(ble)
                 ev = b.advertise(single=(b"\x07\x08", 0xFF))
                 ev["history"] = [n + (str(x[0]) if x else "") for n, x in labels]
                 evs.append(ev)
